@@ -1,7 +1,6 @@
 package props
 
 import (
-	"io"
 	"github.com/caddyserver/caddy/v2"
 	"bytes"
 	"crypto/tls"
@@ -224,8 +223,16 @@ func runC03(t *testing.T, e *worlds.Env, tier string) (bool, any) {
 			// tee in front of the proxy: the branch only drains its copy
 			wrappers = "tee"
 			drain := layer4.NextHandlerFunc(func(cx *layer4.Connection, _ layer4.Handler) error {
-				_, _ = io.Copy(io.Discard, cx)
-				return nil
+				// (reads through tee's pipe are no interception points: the branch parks before each
+				// read and before it ends, so that its progress and its exit are scheduler steps)
+				buf := make([]byte, 4096)
+				for {
+					e.S.Park("teedrain")
+					if _, err := cx.Read(buf); err != nil {
+						e.S.Park("teedrain.end")
+						return nil
+					}
+				}
 			})
 			hs = append(hs, l4tee.VerifNew([]layer4.NextHandler{drain}, e.Log))
 		}
